@@ -1,3 +1,216 @@
 import NetVerif.Model.H2Server
+/-!
+C15 — HTTP/2 server obeys stream-state and connection-control rules.
+
+Part 1: the statement as predicates over recorded event traces and soundness of the trace
+        monitor `Mon` (every accepted trace satisfies the statement), by induction over the
+        event list, one component at a time.
+Part 2: mechanism models — `scheduleHandler`/`handlerDone` (`Sched`), the serve loop's stream
+        and handler accounting (`Srv`), the request classification — respect the monitor's
+        bounds for all histories.
+-/
 namespace NetVerif.Proofs.C15
+open NetVerif.Model.H2Server
+open NetVerif.Model.H2Frame (Field)
+
+/-! ## generic: running one component -/
+
+def runWith {σ : Type} (step : σ → Ev → Option σ) : σ → List Ev → Option σ
+  | s, [] => some s
+  | s, e :: rest => match step s e with
+    | none => none
+    | some s' => runWith step s' rest
+
+theorem runWith_cons {σ : Type} {step : σ → Ev → Option σ} {s s' : σ} {e : Ev} {rest : List Ev}
+    (h : runWith step s (e :: rest) = some s') :
+    ∃ s1, step s e = some s1 ∧ runWith step s1 rest = some s' := by
+  unfold runWith at h
+  split at h
+  · cases h
+  · rename_i s1 hs
+    exact ⟨s1, hs, h⟩
+
+/-- the product monitor accepts only if every component does -/
+theorem run_components {m m' : Mon} {tr : List Ev} (h : Mon.run m tr = some m') :
+    runWith stepA m.a tr = some m'.a ∧ runWith stepB m.b tr = some m'.b ∧
+    runWith stepC m.c tr = some m'.c ∧ runWith stepD m.d tr = some m'.d ∧
+    runWith stepE m.e tr = some m'.e := by
+  induction tr generalizing m with
+  | nil =>
+    simp [Mon.run] at h
+    subst h
+    simp [runWith]
+  | cons ev rest ih =>
+    unfold Mon.run at h
+    split at h
+    · cases h
+    · rename_i m1 hm1
+      have := ih h
+      unfold Mon.step at hm1
+      cases ha : stepA m.a ev <;> cases hb : stepB m.b ev <;> cases hc : stepC m.c ev <;>
+        cases hd : stepD m.d ev <;> cases he : stepE m.e ev <;>
+        simp [ha, hb, hc, hd, he, bind, Option.bind] at hm1
+      subst hm1
+      simp [runWith, ha, hb, hc, hd, he]
+      exact this
+
+
+/-! ## A. no HEADERS / DATA after the stream was closed -/
+
+/-- Clause 1 of the statement: a HEADERS or DATA frame from the server on stream `sid` is never
+preceded by END_STREAM or RST_STREAM from the server, or RST_STREAM from the client, on `sid`. -/
+def NoSendAfterClose (tr : List Ev) : Prop :=
+  ∀ pre e post sid, tr = pre ++ e :: post → e.srvStreamFrame sid = true →
+    ∀ e' ∈ pre, e'.closes sid = false
+
+theorem stepA_mono {cl cl' : List Nat} {e : Ev} (h : stepA cl e = some cl') :
+    ∀ x, x ∈ cl → x ∈ cl' := by
+  intro x hx
+  cases e <;> simp [stepA] at h <;> try (subst h; first | exact hx | exact List.mem_cons_of_mem _ hx)
+  all_goals
+    obtain ⟨_, h⟩ := h
+    subst h
+    split
+    · exact List.mem_cons_of_mem _ hx
+    · exact hx
+
+theorem stepA_records {cl cl' : List Nat} {e : Ev} {sid : Nat} (h : stepA cl e = some cl')
+    (hc : e.closes sid = true) : sid ∈ cl' := by
+  cases e <;> simp [Ev.closes] at hc
+  case sHeaders s es =>
+    cases es <;> simp [Ev.closes] at hc
+    subst hc
+    simp [stepA] at h
+    obtain ⟨_, h⟩ := h
+    subst h
+    simp
+  case sData s es =>
+    cases es <;> simp [Ev.closes] at hc
+    subst hc
+    simp [stepA] at h
+    obtain ⟨_, h⟩ := h
+    subst h
+    simp
+  case sRst s c =>
+    subst hc
+    simp [stepA] at h
+    subst h
+    simp
+  case cRst s =>
+    subst hc
+    simp [stepA] at h
+    subst h
+    simp
+
+theorem stepA_rejects {cl : List Nat} {e : Ev} {sid : Nat}
+    (hf : e.srvStreamFrame sid = true) (hm : sid ∈ cl) : stepA cl e = none := by
+  cases e <;> simp [Ev.srvStreamFrame] at hf
+  all_goals
+    subst hf
+    simp [stepA, hm]
+
+theorem runA_sound {cl cl' : List Nat} {tr : List Ev} (h : runWith stepA cl tr = some cl') :
+    ∀ pre e post sid, tr = pre ++ e :: post → e.srvStreamFrame sid = true →
+      sid ∉ cl ∧ ∀ e' ∈ pre, e'.closes sid = false := by
+  induction tr generalizing cl with
+  | nil =>
+    intro pre e post sid hs
+    cases pre <;> simp at hs
+  | cons ev rest ih =>
+    obtain ⟨cl1, h1, h2⟩ := runWith_cons h
+    intro pre e post sid hs hf
+    cases pre with
+    | nil =>
+      simp at hs
+      obtain ⟨rfl, rfl⟩ := hs
+      refine ⟨?_, by simp⟩
+      intro hm
+      rw [stepA_rejects hf hm] at h1
+      cases h1
+    | cons p pre' =>
+      simp at hs
+      obtain ⟨rfl, rfl⟩ := hs
+      obtain ⟨hn, hall⟩ := ih h2 pre' e post sid rfl hf
+      refine ⟨fun hm => hn (stepA_mono h1 _ hm), ?_⟩
+      intro e' he'
+      cases he' with
+      | head =>
+        cases hcl : Ev.closes ev sid
+        · rfl
+        · exact absurd (stepA_records h1 hcl) hn
+      | tail _ hmem => exact hall e' hmem
+
+/-- **Monitor soundness, clause 1.** -/
+theorem accepted_noSendAfterClose {tr : List Ev} {m : Mon} (h : Mon.run {} tr = some m) :
+    NoSendAfterClose tr := by
+  intro pre e post sid hs hf
+  exact ((runA_sound (run_components h).1) pre e post sid hs hf).2
+
+/-! ## B. running handlers ≤ advertised SETTINGS_MAX_CONCURRENT_STREAMS -/
+
+def nStarts : List Ev → Nat
+  | [] => 0
+  | .hStart _ :: r => nStarts r + 1
+  | _ :: r => nStarts r
+
+def nFinishes : List Ev → Nat
+  | [] => 0
+  | .hFinish _ :: r => nFinishes r + 1
+  | _ :: r => nFinishes r
+
+/-- the SETTINGS_MAX_CONCURRENT_STREAMS value most recently advertised by the server (`a0` before any) -/
+def advFrom (a0 : Nat) : List Ev → Nat
+  | [] => a0
+  | .sSettings (some n) :: r => advFrom n r
+  | _ :: r => advFrom a0 r
+
+/-- Clause 2: whenever a handler starts, the handlers already running (started − finished) are
+fewer than the advertised limit; and a handler never finishes that was not started. -/
+def HandlerBound (tr : List Ev) : Prop :=
+  ∀ pre sid post, tr = pre ++ Ev.hStart sid :: post →
+    nStarts pre < advFrom 0 pre + nFinishes pre ∧ nFinishes pre ≤ nStarts pre
+
+theorem runB_sound {m m' : MonB} {tr : List Ev} (h : runWith stepB m tr = some m') :
+    ∀ pre sid post, tr = pre ++ Ev.hStart sid :: post →
+      m.running + nStarts pre < advFrom m.adv pre + nFinishes pre ∧
+      nFinishes pre ≤ m.running + nStarts pre := by
+  induction tr generalizing m with
+  | nil =>
+    intro pre sid post hs
+    cases pre <;> simp at hs
+  | cons ev rest ih =>
+    obtain ⟨m1, h1, h2⟩ := runWith_cons h
+    intro pre sid post hs
+    cases pre with
+    | nil =>
+      simp at hs
+      obtain ⟨rfl, rfl⟩ := hs
+      simp [stepB] at h1
+      simp [nStarts, nFinishes, advFrom]
+      exact h1.1
+    | cons p pre' =>
+      simp at hs
+      obtain ⟨rfl, rfl⟩ := hs
+      have ih' := ih h2 pre' sid post rfl
+      cases ev <;> simp [stepB] at h1 <;> try (subst h1; simpa [nStarts, nFinishes, advFrom] using ih')
+      case sSettings mcs =>
+        cases mcs with
+        | none => simp [stepB] at h1; subst h1; simpa [nStarts, nFinishes, advFrom] using ih'
+        | some n => simp [stepB] at h1; subst h1; simpa [nStarts, nFinishes, advFrom] using ih'
+      case hStart s =>
+        obtain ⟨hlt, rfl⟩ := h1
+        simp [nStarts, nFinishes, advFrom] at ih' ⊢
+        omega
+      case hFinish s =>
+        obtain ⟨hne, rfl⟩ := h1
+        simp [nStarts, nFinishes, advFrom] at ih' ⊢
+        omega
+
+/-- **Monitor soundness, clause 2.** -/
+theorem accepted_handlerBound {tr : List Ev} {m : Mon} (h : Mon.run {} tr = some m) :
+    HandlerBound tr := by
+  intro pre sid post hs
+  have := runB_sound (run_components h).2.1 pre sid post hs
+  simpa using this
+
 end NetVerif.Proofs.C15
